@@ -383,6 +383,7 @@ class CodeBuilder:
                 not self.allow_postponed_evaluation
                 or not config.allow_postponed_evaluation
                 or self.dialect is not None
+                or not self.is_nailed
             ):
                 raise
             self._add_unpack_method_lines_lazy(method_name)
@@ -844,6 +845,7 @@ class CodeBuilder:
                 not self.allow_postponed_evaluation
                 or not config.allow_postponed_evaluation
                 or self.dialect is not None
+                or not self.is_nailed
             ):
                 raise
             self._add_pack_method_lines_lazy(method_name)
